@@ -1,6 +1,7 @@
 package main
 
 import (
+	"go/token"
 	"fmt"
 	"go/ast"
 	"go/types"
@@ -153,56 +154,148 @@ func addR131(w *World, r *Report, rule string) {
 	var seq []ev
 	var viol []string
 	idxVar, idxDefs := "", 0
-	for _, st := range fd.Body.List {
-		switch x := st.(type) {
-		case *ast.AssignStmt:
-			if len(x.Lhs) == 1 && len(x.Rhs) == 1 {
-				if call, ok := x.Rhs[0].(*ast.CallExpr); ok {
-					if f, _ := calleeFunc(info, call); f != nil && f.Name() == "CurrentCallIndex" {
-						idxVar = c.expr(x.Lhs[0])
-						idxDefs++
-						if len(seq) > 0 {
-							viol = append(viol, "the call index is read after balances were already recorded")
+	// The wrapper's events in execution order. Calls to fork-only helpers of the package are expanded in
+	// place with their parameters bound to the (call-free) arguments; a helper's loop over its variadic
+	// parameter is expanded once per argument. Anything else is not a straight event list.
+	var walk func(list []ast.Stmt, c *astCanon, lists map[types.Object][]string, depth int)
+	walk = func(list []ast.Stmt, c *astCanon, lists map[types.Object][]string, depth int) {
+		for _, st := range list {
+			switch x := st.(type) {
+			case *ast.AssignStmt:
+				if len(x.Lhs) == 1 && len(x.Rhs) == 1 && depth == 0 {
+					if call, ok := x.Rhs[0].(*ast.CallExpr); ok {
+						if f, _ := calleeFunc(info, call); f != nil && f.Name() == "CurrentCallIndex" {
+							idxVar = c.expr(x.Lhs[0])
+							idxDefs++
+							if len(seq) > 0 {
+								viol = append(viol, "the call index is read after balances were already recorded")
+							}
+							continue
 						}
-						continue
 					}
 				}
-			}
-			viol = append(viol, "unexpected assignment `"+c.stmt(x)+"`")
-		case *ast.ExprStmt:
-			call, ok := x.X.(*ast.CallExpr)
-			if !ok {
-				viol = append(viol, "unexpected statement")
-				continue
-			}
-			if id, ok := call.Fun.(*ast.Ident); ok && id.Name == transfer && isParamOf(info, fd, id) {
-				var as []string
-				for _, a := range call.Args {
-					as = append(as, c.expr(a))
+				if valTempDef[x] {
+					continue // names a sub-expression of the next statement(s); resolved where it is used
 				}
-				seq = append(seq, ev{kind: "transfer", args: as})
-				continue
-			}
-			if f, _ := calleeFunc(info, call); f != nil && f.Name() == "saveBalance" && len(call.Args) == 3 {
-				e := ev{kind: "save", acc: c.expr(call.Args[0]), idx: c.expr(call.Args[2])}
-				// balance: uint256.MustFromBig(db.GetBalance(acc))
-				if mc, ok := call.Args[1].(*ast.CallExpr); ok && len(mc.Args) == 1 {
-					if gb, ok := mc.Args[0].(*ast.CallExpr); ok && len(gb.Args) == 1 {
-						if f2, _ := calleeFunc(info, gb); f2 != nil && f2.Name() == "GetBalance" {
-							if sel, ok := gb.Fun.(*ast.SelectorExpr); ok && c.expr(sel.X) == db {
-								e.bal = c.expr(gb.Args[0])
+				viol = append(viol, "unexpected assignment `"+c.stmt(x)+"`")
+			case *ast.RangeStmt:
+				id, ok := ast.Unparen(x.X).(*ast.Ident)
+				vid, ok2 := x.Value.(*ast.Ident)
+				if kid, isId := x.Key.(*ast.Ident); x.Key != nil && (!isId || kid.Name != "_") {
+					ok = false
+				}
+				if !ok || !ok2 || lists[info.Uses[id]] == nil || info.Defs[vid] == nil {
+					viol = append(viol, "the wrapper is no longer a straight statement list (loop)")
+					continue
+				}
+				for _, el := range lists[info.Uses[id]] {
+					c2 := &astCanon{info: info, subst: map[types.Object]string{}}
+					for k, v := range c.subst {
+						c2.subst[k] = v
+					}
+					c2.subst[info.Defs[vid]] = el
+					walk(x.Body.List, c2, lists, depth)
+				}
+			case *ast.ExprStmt:
+				call, ok := x.X.(*ast.CallExpr)
+				if !ok {
+					viol = append(viol, "unexpected statement")
+					continue
+				}
+				if id, ok := call.Fun.(*ast.Ident); ok && c.expr(id) == transfer && info.Uses[id] != nil && !isPkgLevel(info.Uses[id]) {
+					var as []string
+					for _, a := range call.Args {
+						as = append(as, c.expr(a))
+					}
+					seq = append(seq, ev{kind: "transfer", args: as})
+					continue
+				}
+				f, _ := calleeFunc(info, call)
+				if f != nil && f.Name() == "saveBalance" && len(call.Args) == 3 {
+					e := ev{kind: "save", acc: c.expr(call.Args[0]), idx: c.expr(call.Args[2])}
+					// balance: uint256.MustFromBig(db.GetBalance(acc))
+					balArg := call.Args[1]
+					if id, ok := ast.Unparen(balArg).(*ast.Ident); ok {
+						if x, ok := valTempExpr[info.Uses[id]]; ok {
+							balArg = x // a local holding the balance read just before this statement
+						}
+					}
+					if mc, ok := ast.Unparen(balArg).(*ast.CallExpr); ok && len(mc.Args) == 1 {
+						if gb, ok := mc.Args[0].(*ast.CallExpr); ok && len(gb.Args) == 1 {
+							if f2, _ := calleeFunc(info, gb); f2 != nil && f2.Name() == "GetBalance" {
+								if sel, ok := gb.Fun.(*ast.SelectorExpr); ok && c.expr(sel.X) == db {
+									e.bal = c.expr(gb.Args[0])
+								}
 							}
 						}
 					}
+					seq = append(seq, e)
+					continue
 				}
-				seq = append(seq, e)
-				continue
+				// a helper of the package: expand
+				if f != nil && f.Pkg() != nil && f.Pkg().Path() == forkPath(pkVM) && depth < 3 && call.Ellipsis == token.NoPos {
+					if hd, _ := w.FuncDecl(forkPath(pkVM), relNameOfFunc(f)); hd != nil && hd.Body != nil {
+						c2 := &astCanon{info: info, subst: map[types.Object]string{}}
+						l2 := map[types.Object][]string{}
+						simple := true
+						plain := func(e ast.Expr) bool {
+							pure := true
+							ast.Inspect(e, func(n ast.Node) bool {
+								if _, isCall := n.(*ast.CallExpr); isCall {
+									pure = false
+								}
+								return pure
+							})
+							return pure
+						}
+						if hd.Recv != nil && len(hd.Recv.List) == 1 && len(hd.Recv.List[0].Names) == 1 {
+							if sel, ok := call.Fun.(*ast.SelectorExpr); ok && plain(sel.X) {
+								c2.subst[info.Defs[hd.Recv.List[0].Names[0]]] = c.expr(sel.X)
+							} else {
+								simple = false
+							}
+						}
+						var pnames []*ast.Ident
+						var variadic *ast.Ident
+						for _, fld := range hd.Type.Params.List {
+							for _, nm := range fld.Names {
+								if _, isV := fld.Type.(*ast.Ellipsis); isV {
+									variadic = nm
+								} else {
+									pnames = append(pnames, nm)
+								}
+							}
+						}
+						if len(call.Args) < len(pnames) || (variadic == nil && len(call.Args) != len(pnames)) {
+							simple = false
+						}
+						for i, a := range call.Args {
+							if !simple {
+								break
+							}
+							if !plain(a) {
+								simple = false
+							} else if i < len(pnames) {
+								c2.subst[info.Defs[pnames[i]]] = c.expr(a)
+							} else {
+								l2[info.Defs[variadic]] = append(l2[info.Defs[variadic]], c.expr(a))
+							}
+						}
+						if simple {
+							valTemps(info, hd)
+							walk(hd.Body.List, c2, l2, depth+1)
+							continue
+						}
+					}
+				}
+				viol = append(viol, "unexpected call `"+c.expr(call)+"`")
+			default:
+				viol = append(viol, fmt.Sprintf("the wrapper is no longer a straight statement list (%T)", st))
 			}
-			viol = append(viol, "unexpected call `"+c.expr(call)+"`")
-		default:
-			viol = append(viol, fmt.Sprintf("the wrapper is no longer a straight statement list (%T)", st))
 		}
 	}
+	valTemps(info, fd)
+	walk(fd.Body.List, c, map[types.Object][]string{}, 0)
 	want := []ev{{kind: "save", acc: from, bal: from}, {kind: "save", acc: to, bal: to}, {kind: "transfer"}, {kind: "save", acc: from, bal: from}, {kind: "save", acc: to, bal: to}}
 	if len(seq) != len(want) {
 		viol = append(viol, fmt.Sprintf("expected save(from) save(to) transfer save(from) save(to), found %d events", len(seq)))
